@@ -116,3 +116,9 @@ META["C02"] = {
     "note": "A suite run costs ~1 s, so the quick tier samples ~80 suites (~10^3 permutations); half-duplex over HTTP/1.1 is exercised for the reference pair only; TLS/HTTP/3 belong to C01.",
     "technique": "property-based end-to-end testing (rapid) with the runner's own verdict as oracle + crash-freedom generation and native fuzzing",
 }
+
+META["C01"] = {
+    "text": "The five offline runs of `make runconformance` are executed with binaries built from the current tree: reference server (server mode), reference client (client mode), grpcserver under its two configs and grpcclient, each with its shipped known-failing file. The runner is the oracle (exit 0, totals equal the computed permutations, no FAILED line, known-failing lists exact - re-checked from the output with an own glob matcher, reference lists empty); unexpected failures are re-run in isolation to separate timing flakes. The thorough tier enumerates the finite permutation space completely (12,998 + 16,580 + 372 + 339 + 451 cases); the quick tier covers the gRPC-peer runs in full and a seeded sub-matrix of the reference runs.",
+    "note": "Third-party stacks (connect-go, grpc-go, quic-go, net/http) are part of the system under test as pinned by go.sum; the TypeScript gRPC-Web client run cannot execute offline.",
+    "technique": "exhaustive enumeration of the finite configuration space by the repository's own permutation expander, runner verdict as oracle (degenerate generated-input search)",
+}
